@@ -329,6 +329,23 @@ func Add(as ...*Term) *Term {
 		}
 		out = append(out, a)
 	}
+	// x + (y - x)  ==>  y
+	for i, a := range out {
+		if a.Op == "-" {
+			for j, b := range out {
+				if i != j && b == a.Args[1] {
+					var rest []*Term
+					for k, c := range out {
+						if k != i && k != j {
+							rest = append(rest, c)
+						}
+					}
+					rest = append(rest, a.Args[0], IntBig(sum))
+					return Add(rest...)
+				}
+			}
+		}
+	}
 	if len(out) == 0 {
 		return IntBig(sum)
 	}
@@ -352,6 +369,7 @@ func Sub(a, b *Term) *Term {
 	if a == b {
 		return IntLit(0)
 	}
+	// b + (a - b) style cancellations are handled in Add; here: (x - y) where x is a sum containing y
 	if b.Op == "int" {
 		return Add(a, IntBig(new(big.Int).Neg(b.Num)))
 	}
@@ -745,6 +763,9 @@ func DBE(n int, s *Term) *Term { return App(fmt.Sprintf("dbe%d", n), SInt, s) }
 func Zeros(n *Term) *Term {
 	if n.Op == "int" && n.Num.Sign() <= 0 {
 		return TEps
+	}
+	if n.Op == "int" && n.Num.IsInt64() && n.Num.Int64() == 1 {
+		return U8(IntLit(0)) // one normal form for a single zero octet
 	}
 	return App("zeros", SBytes, n)
 }
